@@ -112,6 +112,13 @@ def run_mode(mode, name, seed, space_seed, steps):
     from vizier._src.benchmarks.experimenters.synthetic import bbob
     from vizier._src.benchmarks.runners import benchmark_runner, benchmark_state
     exp = experimenters.NumpyExperimenter(bbob.Sphere, bbob.DefaultBBOBProblemStatement(2 + space_seed % 3))
+    # seeded wrappers that carry their own randomness
+    from vizier._src.benchmarks.experimenters import infeasible_experimenter, noisy_experimenter
+    wrap = (space_seed // 3) % 3
+    if wrap == 1:
+      exp = infeasible_experimenter.HashingInfeasibleExperimenter(exp, infeasible_prob=0.3, seed=seed % 7)
+    elif wrap == 2:
+      exp = noisy_experimenter.NoisyExperimenter.from_type(exp, 'MODERATE_GAUSSIAN', seed=seed % 11 + 1)
     fac = benchmark_state.DesignerBenchmarkStateFactory(experimenter=exp, designer_factory=f)
     st = fac(seed=seed)
     for c in steps:
@@ -119,7 +126,8 @@ def run_mode(mode, name, seed, space_seed, steps):
           benchmark_subroutines=[benchmark_runner.GenerateSuggestions(c), benchmark_runner.EvaluateActiveTrials()], num_repeats=1).run(st)
       noise()
     out = [[{'id': t.id, 'params': {k: v.value for k, v in t.parameters.items()},
-             'value': None if t.final_measurement is None else [m.value for m in t.final_measurement.metrics.values()]}
+             'infeasible': bool(t.infeasible),
+             'value': None if t.final_measurement is None else [repr(m.value) for m in t.final_measurement.metrics.values()]}
             for t in st.algorithm.supporter.GetTrials()]]
   else:
     raise ValueError(mode)
